@@ -65,6 +65,12 @@ Theorem C19_declared_priorities_finite :
   map fst ex_bool_unary = [[33]] /\ ex_float_unary = [[45]].
 Proof. vm_compute. repeat split. Qed.
 
+(* every prefix operator of every table the run uses has, in the REAL parser, the binary position the parser model
+   computes (Parser.Parse unaryEntry.opPos = Syn/Parse.v op_pos): the two examples and the float table with
+   0, 1, 2 and 3 prefix operators that are also binary (first, middle, last priority position) *)
+Theorem C19_prefix_positions_finite : prefix_tables_ok ex_prefix_tables = true.
+Proof. vm_compute. reflexivity. Qed.
+
 Theorem C19_bool : forall e r d args vals v (opt : bool),
   to_rt bool_cfg e = Some r -> snames_ok e = true -> length args = length vals ->
   denote bool_cfg (rho_of args vals) e = Some v ->
@@ -185,6 +191,7 @@ Print Assumptions C19_opt_sound.
 Print Assumptions C19_bool_table_ok_finite.
 Print Assumptions C19_bool_flags_ok_finite.
 Print Assumptions C19_declared_priorities_finite.
+Print Assumptions C19_prefix_positions_finite.
 Print Assumptions C19_bool.
 Print Assumptions C19_bool_any_flags.
 Print Assumptions C19_bool_ast.
